@@ -98,4 +98,10 @@ def generate(tier, rng, hist):
         out.append("%s %d %d %s" % (rng.choice(["map.rt", "map.enc"]), nsrc, nn, toks(ts)))
         if ts:
             out.append("map.lookup %s %s" % (toks(ts), queries(ts, rng)))
+    # coordinates around 2^31 / 2^32-1: deltas that need 33 bits
+    for _ in range(300 if tier == "quick" else 20000):
+        nsrc, nn = rng.choice([1, 3]), rng.choice([0, 2])
+        ts = big_tokens(rng, nsrc, nn, rng.range(1, 8))
+        bump(hist, "big_coordinates")
+        out.append("%s %d %d %s" % (rng.choice(["map.rt", "map.enc"]), nsrc, nn, toks(ts)))
     return out
